@@ -79,7 +79,11 @@ def events (s : State) (l : RawLine) : Except String (List Ev) :=
         else if s.rph g == .done then .ok [.relR g (natOf res)] else .ok [.relD g (natOf res)]
       else .error s!"unmodelled operation {op} on curProcessing in {fn}"
     else if obj == "worker#1.concurrency" then
-      if op == "load" then (if fn == "worker.reserve" then .ok [.ldConcD g (natOf res)] else .ok [.ldConcAny g (natOf res)])
+      if op == "load" then
+        -- reserve() loads the limit twice: before the CAS (with the loaded cur pending: ldConcD) and again after
+        -- taking the slot (the re-check next to the status re-check; the model lets a dispatcher give its slot
+        -- back at any time, so only the value is compared)
+        (if fn == "worker.reserve" && (s.lc g).isSome then .ok [.ldConcD g (natOf res)] else .ok [.ldConcAny g (natOf res)])
       else if op == "store" then .ok [.stConc g (natOf arg)]
       else .error s!"unmodelled operation {op} on concurrency in {fn}"
     else if obj == "worker#1.lifecycle" then
